@@ -143,6 +143,16 @@ def run(p, script, seed=0):
         mk = lambda m, c=None: sample_row(rng, m, c)
         det = MD3(clf=clf, margin_calculation_function=margin, sensitivity=p["sensitivity"], k=p["k"],
                   oracle_data_length_required=p["L"])
+    # the reference batch's row labels: pandas' default, or those of a shuffled / sliced / text-indexed frame (rows are positions)
+    rstyle = rng.choice(["default", "default", "shuffled", "offset", "text"])
+    if rstyle == "shuffled":
+        lab = list(range(len(ref)))
+        rng.shuffle(lab)
+        ref.index = lab
+    elif rstyle == "offset":
+        ref.index = range(500, 500 + len(ref))
+    elif rstyle == "text":
+        ref.index = ["s%d" % i for i in range(len(ref))]
     det.set_reference(ref, target_name="y")
     L = p["L"] if p["L"] is not None else p["n0"]
     ev = [dict(op="set_reference", rows=ref_bits(ref, clf, p["k"]), raised="None", m=0, c=0, nrows=p["n0"], colsok=True,
